@@ -385,13 +385,44 @@ func zzCaseVariants(in string, exempt func(i int) bool) []string {
 	return out
 }
 
+func zzExemptC10(in string) func(i int) bool {
+	if strings.Contains(in, "$") || strings.Contains(strings.ToLower(in), "sp_password") {
+		return func(int) bool { return true }
+	}
+	return func(i int) bool {
+		return (i >= 1 && (in[i-1] == '\\' || in[i-1] == '\'')) || (i+1 < len(in) && in[i+1] == '\'')
+	}
+}
+
+func zzExemptC11(in string) func(i int) bool {
+	up := strings.ToUpper(in)
+	return func(i int) bool {
+		for j := i - 5; j <= i-1; j++ {
+			if j >= 0 && j+7 <= len(up) && up[j:j+7] == "[CDATA[" {
+				return true
+			}
+		}
+		return false
+	}
+}
+
+// the lexer under replay is the one registered for this first byte in both spellings
+func byteParsersSame(a, b byte) bool {
+	return reflect.ValueOf(byteParsers[a]).Pointer() == reflect.ValueOf(byteParsers[b]).Pointer()
+}
+
+func zzUp(c int) int {
+	if c >= 'a' && c <= 'z' {
+		return c - 32
+	}
+	return c
+}
+
 func zzOracleC10(in string) string {
 	if strings.Contains(in, "$") || strings.Contains(strings.ToLower(in), "sp_password") {
 		return ""
 	}
-	exempt := func(i int) bool {
-		return (i >= 1 && (in[i-1] == '\\' || in[i-1] == '\'')) || (i+1 < len(in) && in[i+1] == '\'')
-	}
+	exempt := zzExemptC10(in)
 	v0, f0 := IsSQLi(in)
 	for _, w := range zzCaseVariants(in, exempt) {
 		v1, f1 := IsSQLi(w)
@@ -405,15 +436,7 @@ func zzOracleC10(in string) string {
 // C11 (case part): changing the case of ASCII letters never changes the IsXSS verdict (letters of
 // a case-variant of [CDATA[ are held fixed)
 func zzOracleC11(in string) string {
-	up := strings.ToUpper(in)
-	exempt := func(i int) bool {
-		for j := i - 5; j <= i-1; j++ {
-			if j >= 0 && j+7 <= len(up) && up[j:j+7] == "[CDATA[" {
-				return true
-			}
-		}
-		return false
-	}
+	exempt := zzExemptC11(in)
 	x0 := IsXSS(in)
 	for _, w := range zzCaseVariants(in, exempt) {
 		if x1 := IsXSS(w); x0 != x1 {
